@@ -274,7 +274,8 @@ impl Link for ss::ValueId {
             | Value::Proj(Proj(head, field)) => {
                 let head = head.link(statics);
                 return field.target.products.iter().fold(head, |head, projection| {
-                    Rc::new(Proj(head, projection.position).into())
+                    let arity = product_arity(statics, projection.product);
+                    Rc::new(Proj(head, (projection.position, arity)).into())
                 });
             }
             | Value::Lit(lit) => lit.to_owned().into(),
@@ -394,5 +395,17 @@ mod tests {
         let result = ds::Runtime::new(&mut input, &mut output, &[], arena).run();
 
         assert!(matches!(result, ds::ProgKont::Ret(ds::SemValue::Triv(ss::Triv))));
+    }
+}
+
+/// Number of components of a product type: its right-nested spine ends at the first
+/// tail that is not itself a product (a named product in last position is one component).
+fn product_arity(statics: &StaticsArena, ty: ss::TypeId) -> usize {
+    match statics.normalized_at(ty) {
+        | Some(ss::Type::Prod(ss::Prod(_, tail))) => 1 + match statics.normalized_at(*tail) {
+            | Some(ss::Type::Prod(_)) => product_arity(statics, *tail),
+            | _ => 1,
+        },
+        | _ => 0,
     }
 }
